@@ -6,6 +6,7 @@ which that property's check observes it. Patterns are as wide as the mechanism a
 import json, sys
 
 FIXED = [
+ ("C01","6e941ca","deliver/place/path/*/optional/*","handler-not-reached|request-changed","the Go client formatted the struct member of a path variable (fmt.Sprint(req.ValX)): for a proto3 optional field that is a pointer, so the path carried the pointer's address (/pl/o3/0xc00001a0b8/tail) and the server answered 400 or bound the address text"),
  ("C04","3399969","codec/ts_unix_{seconds,millis}/*@*ts-year-1{500,677}","roundtrip-changed|canon-changed","UNIX_SECONDS/UNIX_MILLIS decoders built the intermediate time in the process's local zone and re-rendered it as RFC 3339 (offsets without seconds): under a zone whose offset at that instant has a seconds part (Asia/Kolkata +05:53:28 before 1906) {\"v\":-14831769600000} decoded to seconds:-14831769572"),
  ("C19","7dd3c12","rules/numeric-{gte,gt,lte,lt,gte+lte,gt+lt,gte=lte}/float/bound=inexact","schema-rejects-what-rules-accept","float32 rule bounds were widened with float64(): a bound such as 3.14159 was published as 3.141590118408203, so the JSON form of a value equal to the bound compared unequal to the published minimum/maximum"),
  ("C20","92ff240","mock/examples/same-short-name/*","value-outside-declared-examples","the mock's example table was keyed by the nested message path while the emitted lookups used the bare message name: examples on nested messages were never used and a nested message took the examples of a same-named top-level one"),
